@@ -6,7 +6,7 @@
      [2, variant, frame, rfp, cf]         to_pandas   -> [model, spec]
      [3, bytes]                           csv_parse   -> records
    frame  = [[name, kind, cells] ...]   kind 0 str (cells = byte lists), 1 int (cells = [hi, lo],
-            value hi*2^32+lo), 2 literal (byte lists), 3 int of dtype int64 (as 1)
+            value hi*2^32+lo), 2 float literal (byte lists), 3 int of dtype int64 (as 1), 4 bool literal
    rf     = [] | [[0, flags]] | [[1, name, flags]]
    rfp    = [] | [flags]
    cf     = [] | [[0, name]] | [[1, names]]
@@ -92,6 +92,9 @@ Definition reimport_pred (v:variant) (fk:list (field * Z)) (fr:frame) (rf:rowfil
   | V_fix => vcols (table_columns (csv_parse file))
   | V_orig =>
     if existsb (fun n => kind_of fk n =? 3) (spec_names fr rf cf) then VErr K_RAISE E_ValueError
+    else if match spec_rows fr rf cf with [] => true | _ => false end
+            && existsb (fun n => let k := kind_of fk n in (k =? 1) || (k =? 2)) (spec_names fr rf cf)
+         then VErr K_RAISE E_ValueError      (* transform_int / transform_float on zero rows *)
     else vcols (map (fun p => (fst p, map orig_text (snd p))) (spec_columns fr rf cf))
   end.
 
@@ -117,7 +120,8 @@ Definition entry_C18 (v:val) : val :=
     | Some fk, Some rfp, Some cf =>
       let fr := map fst fk in
       let enc := fun l : list (name * list cell) => vcols (map (fun p => (fst p, map cell_text (snd p))) l) in
-      VL [of_res enc (to_pandas (as_variant var) fr rfp cf); enc (spec_pandas fr rfp cf)]
+      VL [of_res enc (to_pandas (as_variant var) fr rfp cf);
+          if pandas_valid fr rfp cf then enc (spec_pandas fr rfp cf) else VL [VZ (-998)]]
     | _, _, _ => vbad
     end
   | VL [VZ 3; s] =>
